@@ -370,12 +370,444 @@ class CatDerived(Family):
         return isinstance(po, list) and len(po) == 3 and po[0] != [str(x) for x in case[0]]
 
 
+# ------------------------------------------------------------------------------------------
+# Round 3: memory layout as an independent dimension of every array-taking helper
+# ------------------------------------------------------------------------------------------
+# A layout is [order, perm, step, rev, bc, swap, ro]:
+#   order 'C'|'F'  : order of the underlying buffer
+#   perm           : arr = mem.transpose(perm)  (axis i of the logical array is memory axis perm[i])
+#   step[i]        : logical axis i is a step-sliced view of a larger buffer (1: [::2], 2: [1::2])
+#   rev[i]         : logical axis i has a negative stride
+#   bc[i]          : logical axis i is a broadcast (stride 0) axis — needs values constant along it
+#   swap           : non-native byte order;  ro : read-only view
+# All of them are built with numpy around ONE logical array: values are written and read back by
+# plain indexing over np.ndindex only (never ravel/reshape), so neither the construction nor the
+# transport to the Lean driver depends on the layout.
+
+FILL = 126  # '~' / 126: what the gaps of step-sliced buffers hold
+
+
+def _enc(dt, v):
+    if dt == "i8":
+        return v
+    if dt == "U3":  # coerce_numeric: decimal numerals, -1 = a non-numeric word
+        return str(v) if v >= 0 else "x"
+    return chr(v)
+
+
+def _dec(dt, x):
+    if dt == "O":
+        return ord(x)
+    x = x.item()
+    if dt == "i8":
+        return int(x)
+    if dt == "U3":
+        return int(x) if x.isdigit() else -1
+    return ord(x)
+
+
+def _dtype(dt, swap):
+    if dt == "O":
+        return np.dtype(object)
+    return np.dtype((">" if swap else "<") + dt)
+
+
+def lay_buffer(shape, lay, dt):
+    """(buffer filled with FILL, tuple of per-memory-axis slices, perm) for a layout."""
+    order, perm, step, rev, bc, swap, ro = lay
+    nd = len(shape)
+    bshape, sl = [0] * nd, [None] * nd
+    for i in range(nd):
+        j, n = perm[i], shape[i]
+        if bc[i]:
+            bshape[j], sl[j] = 1, slice(None)
+            continue
+        if step[i] == 1:
+            L, first, st = max(2 * n - 1, 0), 0, 2
+        elif step[i] == 2:
+            L, first, st = 2 * n, 1, 2
+        else:
+            L, first, st = n, 0, 1
+        bshape[j] = L
+        if rev[i] and n > 0:
+            last = first + (n - 1) * st
+            stop = first - st
+            sl[j] = slice(last, stop if stop >= 0 else None, -st)
+        else:
+            sl[j] = slice(first, None, st)
+    buf = np.empty(tuple(bshape), dtype=_dtype(dt, swap), order=order)
+    buf[...] = _enc(dt, FILL) if dt != "U3" else "7"
+    return buf, tuple(sl)
+
+
+def lay_view(buf, sl, shape, lay):
+    """The array in the requested layout, as a view of `buf` (an ndarray or a subclass)."""
+    order, perm, step, rev, bc, swap, ro = lay
+    v = buf[sl].transpose(perm) if len(shape) else buf
+    if any(bc):
+        v = np.broadcast_to(v, tuple(shape), subok=True)
+    if ro:
+        v = v.view()
+        v.setflags(write=False)
+    return v
+
+
+def lay_build(shape, vals, lay, dt):
+    """(array in layout `lay` whose logical content is (shape, vals), its buffer)."""
+    bc = lay[4]
+    buf, sl = lay_buffer(shape, lay, dt)
+    w = buf[sl].transpose(lay[1]) if len(shape) else buf
+    for idx, v in zip(np.ndindex(*shape), vals):
+        w[tuple(0 if b else k for k, b in zip(idx, bc))] = _enc(dt, v)
+    return lay_view(buf, sl, shape, lay), buf, sl
+
+
+def logical(arr, dt):
+    """Row-major logical values, read by plain indexing."""
+    return [_dec(dt, arr[idx]) for idx in np.ndindex(*arr.shape)]
+
+
+def plain_layout(nd):
+    return ["C", list(range(nd)), [0] * nd, [False] * nd, [False] * nd, False, False]
+
+
+def _norm_layout(shape, lay):
+    """Features on length-1 (or empty) axes change nothing: neutralise them so duplicates collapse."""
+    order, perm, step, rev, bc, swap, ro = lay
+    step = [0 if n <= 1 else s for n, s in zip(shape, step)]
+    rev = [False if n <= 1 else r for n, r in zip(shape, rev)]
+    return [order, list(perm), step, rev, list(bc), swap, ro]
+
+
+def layouts_for(shape, bcmask, swap_ok, rng, n_random):
+    """Every single-feature layout, the perm x step / perm x rev products, and random combinations.
+    `bcmask`: axes along which the logical array is constant (so they may be stride-0 axes)."""
+    nd = len(shape)
+    ident = list(range(nd))
+    F, Z = [False] * nd, [0] * nd
+    perms = [list(p) for p in itertools.permutations(range(nd))]
+    out = []
+
+    def add(order="C", perm=ident, step=Z, rev=F, bc=F, swap=False, ro=False):
+        out.append(_norm_layout(shape, [order, list(perm), list(step), list(rev), list(bc), swap, ro]))
+
+    def unit(i, v=True):
+        x = [False] * nd if v is True else [0] * nd
+        x[i] = v
+        return x
+
+    add()
+    add(order="F")
+    for p in perms:
+        if p != ident:
+            add(perm=p)
+            add(order="F", perm=p)
+    # (arrays that are constant along some axes exist for the broadcast layouts below: the strided
+    # products have already been run on the unconstrained arrays of the same shape)
+    for i in range(nd if not any(bcmask) else 0):
+        add(rev=unit(i))
+        add(step=unit(i, 1))
+        add(step=unit(i, 2))
+        add(order="F", step=unit(i, 1))
+        for p in perms:
+            if p != ident:
+                add(perm=p, step=unit(i, 1))
+                add(perm=p, rev=unit(i))
+    if nd > 1 and not any(bcmask):
+        add(rev=[True] * nd)
+        add(step=[1] * nd)
+        add(step=[2] * nd, rev=[True] * nd)
+    add(ro=True)
+    if nd > 1:
+        add(ro=True, perm=perms[-1])
+    if swap_ok:
+        add(swap=True)
+        add(swap=True, order="F")
+        if nd > 1:
+            add(swap=True, perm=perms[1], step=unit(0, 1))
+    # broadcast axes: every non-empty sub-mask of the constant axes, alone and with the other dimensions
+    ks = [i for i in range(nd) if bcmask[i]]
+    for r in range(1, len(ks) + 1):
+        for sub in itertools.combinations(ks, r):
+            bc = [i in sub for i in range(nd)]
+            add(bc=bc)
+            for p in perms[1:]:
+                add(bc=bc, perm=p)
+            for i in range(nd):
+                if not bc[i]:
+                    add(bc=bc, step=unit(i, 1))
+                    add(bc=bc, rev=unit(i))
+            add(bc=bc, order="F")
+    for _ in range(n_random):
+        bc = [bool(bcmask[i]) and rng.random() < 0.4 for i in range(nd)]
+        add(order=rng.choice("CF"), perm=rng.choice(perms), step=[rng.choice([0, 0, 1, 2]) for _ in range(nd)],
+            rev=[rng.random() < 0.35 for _ in range(nd)], bc=bc, swap=swap_ok and rng.random() < 0.25,
+            ro=rng.random() < 0.2)
+    seen, res = set(), []
+    for l in out:
+        k = repr(l)
+        if k not in seen:
+            seen.add(k)
+            res.append(l)
+    return res
+
+
+def _layout_class(lay):
+    order, perm, step, rev, bc, swap, ro = lay
+    permuted = perm != list(range(len(perm)))
+    if any(bc):
+        return "bcast"
+    if permuted and any(step):
+        return "perm-step"
+    if permuted and any(rev):
+        return "perm-rev"
+    if permuted:
+        return "perm"
+    if any(step):
+        return "step"
+    if any(rev):
+        return "rev"
+    if swap:
+        return "swapped"
+    if order == "F":
+        return "fortran"
+    return "readonly" if ro else "plain"
+
+
+class Layouts(Family):
+    """Every array-taking helper (`unique`, `categorical_ndarray` — fresh, copied in every `order`, and
+    derived from a parent —, `index_lookup`, `unbroadcast`, `broadcast_arrays_minimal`, `check_sorted`,
+    `coerce_numeric`) on one logical array under every memory layout.  case =
+    [helper, dtype, shape, values (row-major, logical), layout, extra]."""
+    name = "lay"
+    exhaustive = False
+    batch = 400
+    budget_share = 3.0
+
+    CAT_MODES = [[False, None], [True, None], [True, "K"], [True, "F"], [True, "A"], [False, "F"], [True, "C"]]
+    DER_POST = [None, "K", "F", "C", "A"]
+
+    # ---- generation -------------------------------------------------------------------------
+    @staticmethod
+    def _shapes(tier):
+        one = [[n] for n in ((1, 2, 3, 4, 5) if tier == "quick" else (1, 2, 3, 4, 5, 6, 7))]
+        two = [list(s) for s in itertools.product((1, 2, 3), repeat=2)] + [[2, 4], [4, 2]]
+        if tier == "quick":
+            three = [list(s) for s in itertools.product((1, 2), repeat=3) if s != (1, 1, 1)]
+            three += [list(p) for p in sorted(set(itertools.permutations((2, 2, 3))))]
+            three += [[2, 3, 4], [3, 1, 2], [1, 3, 2]]
+        else:
+            three = [list(s) for s in itertools.product((1, 2, 3), repeat=3)]
+            three += [list(p) for p in sorted(set(itertools.permutations((2, 3, 4))))]
+            two += [[3, 4], [4, 3], [5, 2]]
+        return one + two + three
+
+    @staticmethod
+    def _expanded(shape, mask, basevals):
+        """Logical values of the array that is `basevals` (on the shape with 1 on masked axes) broadcast."""
+        base = [1 if m else n for n, m in zip(shape, mask)]
+        out = []
+        for idx in np.ndindex(*shape):
+            f = 0
+            for k, n, m in zip(idx, base, mask):
+                f = f * n + (0 if m else k)
+            out.append(basevals[f])
+        return out
+
+    def _arrays(self, shape, tier, rng):
+        """(values, constant-axes mask) pairs: all-distinct values in a scrambled order (any permutation
+        of codes is visible), duplicates over a 3-letter alphabet, and arrays constant along axes."""
+        size = int(np.prod(shape))
+        nd = len(shape)
+        none = [False] * nd
+        d = list(range(97, 97 + size))
+        rng.shuffle(d)
+        yield d, none
+        for _ in range(1 if tier == "quick" else 3):
+            yield [rng.choice((97, 98, 100)) for _ in range(size)], none
+        masks = [m for m in itertools.product([False, True], repeat=nd) if any(m) and all(shape[i] > 1 for i in range(nd) if m[i])]
+        if tier == "quick" and len(masks) > 3:
+            masks = rng.sample(masks, 3)
+        for m in masks:
+            base = int(np.prod([1 if mm else n for n, mm in zip(shape, m)]))
+            b = list(range(97, 97 + base))
+            rng.shuffle(b)
+            yield self._expanded(shape, m, b), list(m)
+
+    def _helper_cases(self, shape, vals, lay, tier, rng, k):
+        """The helper variants run on one (array, layout); `k` rotates the less important variants."""
+        swap = lay[5]
+        size = len(vals)
+        cats = sorted(set(vals))
+        dts = ["i8", "U1"] if swap else ["i8", "U1", "O"]
+        for dt in (dts if tier == "thorough" else [dts[k % len(dts)], dts[(k + 1) % len(dts)]]):
+            yield ["uniq", dt, shape, vals, lay, None]
+        modes = self.CAT_MODES if tier == "thorough" else self.CAT_MODES[:2] + [self.CAT_MODES[2 + k % 5]]
+        for j, (cp, od) in enumerate(modes):
+            yield ["cat", dts[(k + j) % len(dts)], shape, vals, lay, [cp, od]]
+        for touch in ((0, 1, 2, 3) if tier == "thorough" else (k % 4,)):
+            yield ["der", "U1" if (k + touch) % 3 else "i8", shape, vals, lay, [[], touch, self.DER_POST[(k + touch) % 5]]]
+        item_sets = [cats, cats + [200, 201], cats[1:], cats[::-1]]
+        for j in ((0, 1, 2, 3) if tier == "thorough" else (k % 4,)):
+            yield ["look", "U1" if (k + j) % 2 else "i8", shape, vals, lay, item_sets[j]]
+        yield ["unb", "i8" if k % 2 else "U1", shape, vals, lay, None]
+        if not shape:  # 0-d: nothing to compare along an axis / broadcast against
+            yield ["coerce", "U3", shape, [v - 97 for v in vals], lay, None]
+            return
+        partners = [list(shape), [shape[-1]], [1] * len(shape), [1 if i % 2 else n for i, n in enumerate(shape)], [2] + list(shape), [], [shape[-1] + 1]]
+        for j in ((0, 1, 2, 3, 4, 5, 6) if tier == "thorough" else (k % 7, (k + 3) % 7)):
+            ps = partners[j]
+            yield ["bam", "i8", shape, vals, lay, [ps, list(range(int(np.prod(ps))))]]
+        yield ["sorted", "i8" if k % 2 else "U1", shape, vals, lay, None]
+        yield ["coerce", "U3", shape, [v - 97 if (v + k) % 4 else -1 for v in vals], lay, None]
+
+    def cases(self, tier, rng):
+        k = 0
+        # exhaustive small scope: every array over a 3-letter alphabet x every layout (unique + categorical)
+        for shape in ([1], [2], [3], [2, 2], [1, 3], [3, 1]) + (() if tier == "quick" else ([4], [2, 3], [3, 2], [1, 2, 2], [2, 1, 2])):
+            shape = list(shape)
+            size = int(np.prod(shape))
+            lays = layouts_for(shape, [False] * len(shape), True, rng, 0)
+            for xs in itertools.product((97, 98, 100), repeat=size):
+                for lay in lays:
+                    k += 1
+                    dt = ("i8", "U1")[k % 2] if lay[5] else ("i8", "U1", "O")[k % 3]
+                    yield ["uniq", dt, shape, list(xs), lay, None]
+                    yield ["cat", dt, shape, list(xs), lay, self.CAT_MODES[k % 3]]
+        # zero-size and 0-d arrays (layout is moot, the helpers must still answer)
+        for shape in ([0], [0, 2], [2, 0], [2, 0, 3], []):
+            vals = [] if shape else [98]
+            for lay in ([plain_layout(len(shape))] + ([["F"] + plain_layout(len(shape))[1:]] if shape else [])):
+                yield from self._helper_cases(shape, vals, lay, "thorough", rng, 0)
+        # every logical array under every layout
+        for shape in self._shapes(tier):
+            for vals, cmask in self._arrays(shape, tier, rng):
+                for lay in layouts_for(shape, cmask, True, rng, 4 if tier == "quick" else 16):
+                    k += 1
+                    yield from self._helper_cases(shape, vals, lay, tier, rng, k)
+
+    # ---- execution --------------------------------------------------------------------------
+    @staticmethod
+    def _codes(c):
+        return [None if np.isnan(c[idx]) else (int(c[idx]) if float(c[idx]) == int(c[idx]) else "frac") for idx in np.ndindex(*c.shape)]
+
+    def run_impl(self, case):
+        helper, dt, shape, vals, lay, extra = case
+        arr, buf, sl = lay_build(shape, vals, lay, dt)
+        if arr.shape != tuple(shape):
+            raise AssertionError("layout builder: shape")
+        if helper == "der":
+            # the parent is the whole buffer (gaps included) as a categorical array; the array in the
+            # requested layout is DERIVED from it by numpy views (and optionally a copy in some order)
+            _, touch, post = extra
+            if touch == 3:
+                P = A.categorical_ndarray(buf, copy=False, categories=np.unique(np.asarray(buf).astype(_dtype(dt, False))))
+            else:
+                P = A.categorical_ndarray(buf, copy=False)
+            if touch == 1:
+                P.codes
+            elif touch == 2:
+                P.categories
+            arr = lay_view(P, sl, shape, lay)
+            if post is not None:
+                arr = arr.copy(order=post)
+            if not isinstance(arr, A.categorical_ndarray):
+                return "not-categorical"
+            self._parent = logical(np.asarray(buf), dt)
+        rv = logical(arr, dt)
+        if rv != list(vals):
+            raise AssertionError("layout builder: logical values differ")
+        if helper == "uniq":
+            U, I = A.unique(arr)
+            obs = [[_dec(dt, U[i]) for i in range(len(U))], list(I.shape), [int(I[idx]) for idx in np.ndindex(*I.shape)]]
+        elif helper == "cat":
+            c = A.categorical_ndarray(arr, copy=extra[0], order=extra[1])
+            cats, codes = np.asarray(c.categories), np.asarray(c.codes)
+            obs = [logical(np.asarray(c), dt), [_dec(dt, cats[i]) for i in range(len(cats))], list(codes.shape), self._codes(codes)]
+        elif helper == "der":
+            cats, codes = np.asarray(arr.categories), np.asarray(arr.codes)
+            obs = [[_dec(dt, cats[i]) for i in range(len(cats))], list(codes.shape), self._codes(codes)]
+        elif helper == "look":
+            items = np.array([_enc(dt, x) for x in extra], dtype=_dtype(dt, False))
+            r = np.asarray(A.index_lookup(arr, items))
+            obs = [list(r.shape), self._codes(r)]
+        elif helper == "unb":
+            u = A.unbroadcast(arr)
+            obs = [list(u.shape), logical(u, dt)]
+        elif helper == "bam":
+            ps, pv = extra
+            other = np.empty(tuple(ps), dtype=np.int64)
+            for idx, v in zip(np.ndindex(*ps), pv):
+                other[idx] = v
+            try:
+                ra, rb = A.broadcast_arrays_minimal(arr, other)
+            except ValueError:
+                return [rv, "value-error"]
+            z = [bool(ra.size and n > 1 and s == 0) for n, s in zip(ra.shape, ra.strides)]
+            obs = [[list(ra.shape), logical(ra, dt)], [list(rb.shape), logical(rb, "i8")], z]
+        elif helper == "sorted":
+            obs = bool(A.check_sorted(arr))
+        elif helper == "coerce":
+            r = A.coerce_numeric(arr)
+            obs = [list(r.shape), [None if np.isnan(r[idx]) else (int(r[idx]) if r[idx] == int(r[idx]) else "frac") for idx in np.ndindex(*r.shape)]]
+        else:
+            raise ValueError(helper)
+        return [rv, obs]
+
+    def line(self, case, pyout):
+        from harness.core import sx
+        helper, dt, shape, vals, lay, extra = case
+        if helper == "der":
+            extra = [getattr(self, "_parent", []), extra[1], extra[2] or "N"]
+        elif helper == "cat":
+            extra = [extra[0], extra[1] or "N"]
+        if isinstance(pyout, list) and len(pyout) == 2 and pyout[0] != "py-exception" and isinstance(pyout[0], list):
+            # the logical values the driver sees are the ones READ BACK from the array by plain indexing
+            return sx(["lay", [helper, lay, shape, pyout[0], extra], pyout[1]])
+        return sx(["lay", [helper, lay, shape, vals, extra], pyout])
+
+    def nontrivial(self, case, po):
+        return _layout_class(case[4]) != "plain" and len(case[3]) >= 2 and isinstance(po, list) and po[0] != "py-exception"
+
+    def signature(self, case, pyout, res):
+        return {"helper": case[0], "dtype": case[1], "layout": _layout_class(case[4]), "swapped": bool(case[4][5])}
+
+    def shrink(self, case):
+        """Drop one layout feature at a time (the logical array stays), then fall back to the first helper variant."""
+        helper, dt, shape, vals, lay, extra = case
+        order, perm, step, rev, bc, swap, ro = lay
+        nd = len(shape)
+        cands = []
+        if ro:
+            cands.append([order, perm, step, rev, bc, swap, False])
+        if swap:
+            cands.append([order, perm, step, rev, bc, False, ro])
+        if order == "F":
+            cands.append(["C", perm, step, rev, bc, swap, ro])
+        for i in range(nd):
+            if step[i]:
+                cands.append([order, perm, [0 if j == i else s for j, s in enumerate(step)], rev, bc, swap, ro])
+            if rev[i]:
+                cands.append([order, perm, step, [False if j == i else r for j, r in enumerate(rev)], bc, swap, ro])
+            if bc[i]:
+                cands.append([order, perm, step, rev, [False if j == i else b for j, b in enumerate(bc)], swap, ro])
+        if perm != list(range(nd)):
+            cands.append([order, list(range(nd)), step, rev, bc, swap, ro])
+        for l in cands:
+            yield [helper, dt, shape, vals, l, extra]
+        if dt == "O":
+            yield [helper, "U1", shape, vals, lay, extra]
+
+
 PROP = Property(
     id="C20",
     title="Chunk, slice and broadcast helpers are exact",
-    theorems=["C20.findChunkShape_spec", "C20.iterateChunks_partition", "C20.iterateChunks_nmax", "C20.unbroadcast_roundtrip", "C20.unique_spec", "C20.viewShape_slice_length", "C20.combineNorm_correct", "C20.combineSlices_spec", "C20.iterLoop_eq_prod", "C20.iterateChunksLoop_partition", "C20.iterateChunksLoop_nmax", "C20.iterateChunks_entry_nmax", "C20.iterateChunks_entry_chunkShape", "C20.derived_codes_spec"],
-    families=[SliceIndices(), Fcs(), Iter(), Comb(), Unbroadcast(), ViewShape(), Unique(), CatNd(), CatDerived()],
-    trusted_base=["numpy striding / as_strided, pandas.factorize(sort=True), CPython slice.indices (the latter validated by the slidx L0 family)"],
+    theorems=["C20.findChunkShape_spec", "C20.iterateChunks_partition", "C20.iterateChunks_nmax", "C20.unbroadcast_roundtrip", "C20.unique_spec", "C20.viewShape_slice_length", "C20.combineNorm_correct", "C20.combineSlices_spec", "C20.iterLoop_eq_prod", "C20.iterateChunksLoop_partition", "C20.iterateChunksLoop_nmax", "C20.iterateChunks_entry_nmax", "C20.iterateChunks_entry_chunkShape", "C20.derived_codes_spec",
+              "C20.unique_layout_independent", "C20.lookupNd_spec", "C20.derivedNd_spec", "C20.unbroadcastNd_roundtrip",
+              "C20.helpers_depend_on_logical_array_only"],
+    families=[SliceIndices(), Fcs(), Iter(), Comb(), Unbroadcast(), ViewShape(), Unique(), CatNd(), CatDerived(), Layouts()],
+    trusted_base=["numpy striding / as_strided, pandas.factorize(sort=True), CPython slice.indices (the latter validated by the slidx L0 family)",
+                  "family lay: numpy view construction (transpose / slicing / broadcast_to / byte order) — the logical array the driver sees is read back from the built array by plain indexing over np.ndindex and compared with the intended values before any helper runs"],
     assumptions=["numpy and pandas behave as their L0 models on the explored scope"],
-    rule="exhaustive small scopes per family (shapes, chunk shapes/limits, normalised slice triples, stride patterns, arrays over a 3-letter alphabet) plus seeded random beyond; non-trivial = more than one chunk / non-empty combined slice / a removed broadcast axis / >=2 values",
+    rule="exhaustive small scopes per family (shapes, chunk shapes/limits, normalised slice triples, stride patterns, arrays over a 3-letter alphabet) plus seeded random beyond; family lay: every array helper on each logical 1..3-d array under every memory layout (C, F, all axis permutations, negative strides, step-sliced views, their products with permutations, stride-0 axes, non-native byte order, read-only, random combinations); non-trivial = more than one chunk / non-empty combined slice / a removed broadcast axis / >=2 values",
 )
